@@ -8,7 +8,7 @@ from vlib import Broken
 def write_progs(path, progs):
     with open(path, "w") as f:
         for p in progs:
-            f.write(json.dumps(dict({"id": p["id"], "prog": p["prog"]}, **({"ext": p["ext"]} if p.get("ext") else {})), separators=(",", ":")) + "\n")
+            f.write(json.dumps(dict({"id": p["id"], "prog": p["prog"]}, **({"ext": p["ext"], "extinner": bool(p.get("extinner"))} if p.get("ext") else {})), separators=(",", ":")) + "\n")
 
 
 def fix_exp(e):
@@ -54,7 +54,7 @@ def replay(ctx, binp, progs, exps, tag, nconc=3, timeout=1800, env=None, alts=No
                 continue
             c = {"id": p["id"], "prog": p["prog"], "exp": e, "unordered": bool(p.get("unordered"))}
             if p.get("ext"):
-                c["ext"] = p["ext"]
+                c["ext"], c["extinner"] = p["ext"], bool(p.get("extinner"))
             if alts:
                 c["alt"] = [{"key": k, "exp": ax[p["id"]]} for k, ax in alts.items() if ax[p["id"]] != e]
             f.write(json.dumps(c, separators=(",", ":")) + "\n")
@@ -199,12 +199,12 @@ def run_family(ctx, binp, progs, tag, kinds=("semantic", "panic"), nconc=2, devi
             continue
         case = {"id": p["id"], "prog": p["prog"], "exp": exps[p["id"]], "unordered": bool(p.get("unordered"))}
         if p.get("ext"):
-            case["ext"] = p["ext"]
+            case["ext"], case["extinner"] = p["ext"], bool(p.get("extinner"))
         again = single(ctx, binp, case, nconc=nconc, env=env)
         if not any(x["kind"] == m["kind"] for x in again["mismatches"] or []):
             raise Broken("mismatch on %s not reproduced in a fresh process: %s" % (m["id"], m["what"]))
         payload = {"kind": m["kind"], "id": p["id"], "source": m["src"], "prog": p["prog"], "expected": exps[p["id"]], "observed": m.get("got"),
-                   "what_differs": m["what"], "unordered": bool(p.get("unordered")), "ext": p.get("ext") or []}
+                   "what_differs": m["what"], "unordered": bool(p.get("unordered")), "ext": p.get("ext") or [], "extinner": bool(p.get("extinner"))}
         vlib.violation(ctx, "%s: %s on program %s:\n%s" % (m["kind"], m["what"], p["id"], m["src"][:500]), payload)
     return s
 
@@ -213,11 +213,11 @@ def replay_one(ctx, binp, path, nconc=3, env=None):
     p = json.load(open(path))
     case = {"id": p["id"], "prog": p["prog"], "exp": p["expected"], "unordered": p.get("unordered", False)}
     if p.get("ext"):
-        case["ext"] = p["ext"]
+        case["ext"], case["extinner"] = p["ext"], bool(p.get("extinner"))
     if vlib.open_findings(ctx, ctx.id):
         for key, cfg in DEVIATIONS:
             if dev_applies(key, p["prog"]):
-                dev = evaluate(ctx, [{"id": p["id"], "prog": p["prog"], "ext": p.get("ext")}], cfg=cfg)
+                dev = evaluate(ctx, [{"id": p["id"], "prog": p["prog"], "ext": p.get("ext"), "extinner": p.get("extinner")}], cfg=cfg)
                 if dev.get(p["id"]) and dev[p["id"]] != p["expected"]:
                     case.setdefault("alt", []).append({"key": key, "exp": dev[p["id"]]})
     r = single(ctx, binp, case, nconc=nconc, env=env)
